@@ -2426,6 +2426,86 @@ theorem normEntry_of_normal (e : Entry) (h : descNormal e.desc = true) : normEnt
   unfold normEntry
   rw [normDesc_of_normal e.desc h]
 
+/-! ### the files of a TSV save -/
+
+theorem dictGet_put_same {α} (d : List (Str × α)) (k : Str) (v : α) : dictGet (dictPut d k v) k = some v := by
+  unfold dictPut dictGet
+  by_cases h : d.any (·.1 == k) = true
+  · simp only [h, ↓reduceIte]
+    induction d with
+    | nil => simp at h
+    | cons x r ih =>
+      by_cases hx : (x.1 == k) = true
+      · simp only [List.map_cons, hx, ↓reduceIte]
+        rw [List.find?_cons_of_pos (by simp)]
+        rfl
+      · have hx' : (x.1 == k) = false := by simpa using hx
+        have hr : r.any (·.1 == k) = true := by simpa [hx'] using h
+        simp only [List.map_cons, hx', Bool.false_eq_true, ↓reduceIte, List.find?_cons]
+        exact ih hr
+  · have : d.find? (·.1 == k) = none := by
+      rw [List.find?_eq_none]
+      intro x hx hxk
+      exact h (List.any_eq_true.mpr ⟨x, hx, hxk⟩)
+    simp only [h, Bool.false_eq_true, ↓reduceIte, List.find?_append]
+    simp [this]
+
+theorem dictGet_put_other {α} (d : List (Str × α)) (k k' : Str) (v : α) (hne : k ≠ k') :
+    dictGet (dictPut d k v) k' = dictGet d k' := by
+  unfold dictPut dictGet
+  have hkk : (k == k') = false := by simpa using hne
+  by_cases h : d.any (·.1 == k) = true
+  · simp only [h, ↓reduceIte]
+    clear h
+    induction d with
+    | nil => rfl
+    | cons x r ih =>
+      by_cases hx : (x.1 == k) = true
+      · have hxk : x.1 = k := by simpa using hx
+        have : (x.1 == k') = false := by rw [hxk]; exact hkk
+        simp only [List.map_cons, hx, ↓reduceIte, List.find?_cons, hkk, this]
+        exact ih
+      · have hx' : (x.1 == k) = false := by simpa using hx
+        simp only [List.map_cons, hx', Bool.false_eq_true, ↓reduceIte, List.find?_cons]
+        cases hxk' : (x.1 == k') with
+        | true => rfl
+        | false => exact ih
+  · simp only [h, Bool.false_eq_true, ↓reduceIte, List.find?_append]
+    cases d.find? (·.1 == k') with
+    | none => simp [hkk]
+    | some y => simp
+
+theorem tsvFileName_inj (base a b : Str) (h : tsvFileName base a = tsvFileName base b) : a = b := by
+  unfold tsvFileName at h
+  have h1 := List.append_cancel_left (List.append_cancel_right h)
+  simpa using h1
+
+theorem saveFrames_get_other {α} (base : Str) (files sheets : List (Str × α)) (suf : Str)
+    (h : suf ∉ sheets.map (·.1)) :
+    dictGet (saveFrames base files sheets) (tsvFileName base suf) = dictGet files (tsvFileName base suf) := by
+  induction sheets generalizing files with
+  | nil => rfl
+  | cons p r ih =>
+    obtain ⟨s, v⟩ := p
+    simp only [List.map_cons, List.mem_cons, not_or] at h
+    rw [saveFrames, ih _ h.2]
+    exact dictGet_put_other _ _ _ _ (fun e => h.1 (tsvFileName_inj base s suf e).symm)
+
+theorem saveFrames_get {α} (base : Str) (files sheets : List (Str × α)) (hnd : (sheets.map (·.1)).Nodup)
+    (p : Str × α) (hp : p ∈ sheets) :
+    dictGet (saveFrames base files sheets) (tsvFileName base p.1) = some p.2 := by
+  induction sheets generalizing files with
+  | nil => simp at hp
+  | cons q r ih =>
+    obtain ⟨s, v⟩ := q
+    simp only [List.map_cons, List.nodup_cons] at hnd
+    rw [saveFrames]
+    simp only [List.mem_cons] at hp
+    rcases hp with rfl | hp
+    · rw [saveFrames_get_other base _ r s hnd.1]
+      exact dictGet_put_same _ _ _
+    · exact ih _ hnd.2 hp
+
 /-! ### the three documents of one save -/
 
 /-- `rel` names the entries the way the saved file shows them: level, last name segment, attributes and description
@@ -3367,6 +3447,35 @@ theorem nowiki_counterexample :
       fun r => r.bind fun row => (readEntry row).toOption) =
       some ((['A'], [], some ['a', 'b']) : Str × Attrs × Option Str) :=
   ⟨by decide, by decide, by decide⟩
+
+/-! ### the files of a TSV save -/
+
+/-- **A TSV save writes all ten sheets, and what is loaded afterwards does not depend on what was there before.**
+For every location content `old` (files an earlier save left behind) and every dictionary of frames with the ten
+sheet names as keys (what `Schema2DF.process_schema` returns for *every* schema: it starts from
+`create_empty_dataframes()`), `save_dataframes` leaves a file for each of the ten names — empty sections included —
+and `load_dataframes` of the location returns exactly the frames just written: none is a blank fallback and none
+comes from `old`. -/
+theorem tsv_writes_all_sheets {α} (base : Str) (old sheets : List (Str × α))
+    (hk : sheets.map (·.1) = sheetNames) :
+    (∀ suf ∈ sheetNames, (dictGet (saveFrames base old sheets) (tsvFileName base suf)).isSome = true) ∧
+    loadFrames base (saveFrames base old sheets) = sheets.map fun p => (p.1, some p.2) := by
+  have hnd : (sheets.map (·.1)).Nodup := by rw [hk]; decide
+  have hget := saveFrames_get base old sheets hnd
+  refine ⟨?_, ?_⟩
+  · intro suf hs
+    rw [← hk] at hs
+    obtain ⟨p, hp, rfl⟩ := List.mem_map.mp hs
+    rw [hget p hp]; rfl
+  · unfold loadFrames
+    rw [← hk, List.map_map]
+    apply List.map_congr_left
+    intro p hp
+    simp [hget p hp]
+
+/-- a save that skips the empty frames (seeded change C05-e) would leave the earlier file in place -/
+example : dictGet (saveFrames ['b'] [(tsvFileName ['b'] ['U', 'n', 'i', 't'], 7)] ([] : List (Str × Nat)))
+    (tsvFileName ['b'] ['U', 'n', 'i', 't']) = some 7 := by decide
 
 /-! ### the three formats agree, merged and unmerged -/
 
